@@ -107,6 +107,10 @@ var c20Fragments = [][]string{
 	{"DELETE", "FROM", "t", "WHERE", "c", "=", "';;'", ";"},
 	{"SELECT", "'C:\\\\tmp\\\\'", "FROM", "t", ";"},              // literal ending in an escaped backslash
 	{"SELECT", "'it\\'s;'", ",", "\"q\\\";\"", "FROM", "t", ";"}, // escaped quotes followed by a semicolon inside the literal
+	// ^ marks a place inside a literal where a line break may be typed in addition to what is there: after a
+	// blank, before a blank, twice in a row (an empty continuation line)
+	{"SELECT", "'hello ^world;'", "FROM", "t", ";"},
+	{"SELECT", "'a;^ b^^c'", ";"},
 }
 
 // render types one statement with the given gap choices (bit i set = line break in gap i).
@@ -125,7 +129,15 @@ func c20Render(frag []string, breaks uint) (typed string) {
 		if i > 0 {
 			sb.WriteString(sep())
 		}
-		if strings.Contains(tok, "|") {
+		if strings.Contains(tok, "^") {
+			parts := strings.Split(tok, "^")
+			for pi, part := range parts {
+				if pi > 0 && sep() == "\r" {
+					sb.WriteString("\r")
+				}
+				sb.WriteString(part)
+			}
+		} else if strings.Contains(tok, "|") {
 			parts := strings.SplitN(tok, "|", 2)
 			sb.WriteString(parts[0])
 			s := sep()
@@ -147,6 +159,7 @@ func c20Gaps(frag []string) int {
 		if strings.Contains(t, "|") {
 			n++
 		}
+		n += strings.Count(t, "^")
 	}
 	return n
 }
